@@ -34,6 +34,10 @@ def stepRecords (toks : List String) : String :=
     match find name, ofHex b with
     | some rc, some b => recDec (lookupKey tbl) rc b
     | _, _ => "bad-op"
+  | ["decm", name, b, _keys] =>      -- `dec` with the decoder's allocation measured by the harness
+    match find name, ofHex b with
+    | some rc, some b => recDec (lookupKey tbl) rc b
+    | _, _ => "bad-op"
   | ["rt", name, vtxt, b, _keys] =>
     match find name, ofHex b with
     | some rc, some b => recRt (lookupKey tbl) rc vtxt b
